@@ -166,7 +166,17 @@ def run(R, env):
                                 break
             elif role == "channel":
                 good = src(v)
-                channel_checks(R, prog, b, "C14.R2")
+                if good:
+                    channel_checks(R, prog, b, "C14.R2")
+                else:
+                    # a dedicated validator: v = helper(self.ibc_channel_id)? where the helper returns its input
+                    # on every success path and performs the channel checks on it
+                    hc = shared.unwrap_payload(v) if v[0] == "payload" else ("none",)
+                    hb = shared._body_of_call(prog, hc) if hc[0] == "call" else None
+                    if hb is not None and len(hc[2]) == 1 and src(hc[2][0]):
+                        oks = [e for e in exits(Ctx(hb)) if e["kind"] == "ok"]
+                        ret_in = bool(oks) and all(e["term"][3][0][2][0] == "param" and e["term"][3][0][2][1] == 1 for e in oks)
+                        good = ret_in and channel_checks(R, prog, hb, "C14.R2", src=lambda x: x[0] == "param" and x[1] == 1)
             R.ob("C14.R1", "%s.%s" % (sec, fld), good, "%s.%s <- %s; expected %s(self.%s%s)" % (sec, fld, why, role, inp, (", " + pfx) if pfx else ""), loc=b.loc(bi, si), fn=b.key)
         extra = set(n for _, n, _ in t[3]) - set(ROUTING[sec])
         R.ob("C14.R1", sec + ":all-fields-reviewed", not extra, "fields without a routing rule: %s" % sorted(extra), fn=b.key)
@@ -369,13 +379,13 @@ def run(R, env):
             R.ob("C14.R5", "RemoveValidator:unknown-rejected", n >= 1 and not any(e["kind"] != "err" for e in exits(w)), "removing an address that is not in the list succeeds", fn=hk)
 
 
-def channel_checks(R, prog, b, rule):
+def channel_checks(R, prog, b, rule, src=None):
     """the function constructing ProtocolChainConfig accepts its ibc_channel_id only if it starts
     with "channel-" and the WHOLE remainder parses as u64 — tested in the function itself or in a
     boolean helper it calls; decided in the worlds `no such prefix` and `remainder does not parse`."""
     from engine.analysis import success_exits, inline_walk
     c = Ctx(b)
-    src = lambda x: x[0] == "field" and x[2] == "ibc_channel_id" and x[1][0] == "param" and x[1][1] == 1
+    src = src or (lambda x: x[0] == "field" and x[2] == "ibc_channel_id" and x[1][0] == "param" and x[1][1] == 1)
     LIT = "channel-"
     n_pfx = prefix_tests(prog, c, src, LIT)
     w = prefix_world(c, src, LIT, False).settle()
